@@ -43,7 +43,10 @@ def entries() -> List[Dict[str, str]]:
 
 
 def active(fid: str) -> bool:
-    """True iff finding `fid` is listed as *known* (its region is then excluded)."""
+    """True iff finding `fid` is listed as *known* (its region is then excluded).
+    VERIF_KF_IGNORE=id,id (self-test only) treats the named entries as not listed."""
+    if fid in (os.environ.get("VERIF_KF_IGNORE") or "").split(","):
+        return False
     return any(e["id"] == fid and e["kind"] == "known" for e in entries())
 
 
@@ -55,6 +58,8 @@ def what(fid: str) -> str:
 
 
 def listed(fid: str) -> str:
+    if fid in (os.environ.get("VERIF_KF_IGNORE") or "").split(","):
+        return ""
     for e in entries():
         if e["id"] == fid:
             return e["kind"]
